@@ -262,7 +262,7 @@ impl<DataInterfaceType: DeduplicationDataInterface> FileDeduper<DataInterfaceTyp
                 invariant_except_break
                     end_idx == base_idx + vx_n1,
                 invariant
-                    *self == *old(self), self.istruct(), nd == hashes(self.new_data@),
+                    *self == *old(self), /*@C01,C02,C05*/ self.istruct(), nd == hashes(self.new_data@),
                     1 <= vx_n1 <= chunks@.len() || (chunks@.len() == 1 && vx_n1 == 1),
                     base_idx < end_idx <= nd.len(), end_idx - base_idx <= chunks@.len(), end_idx - base_idx <= vx_n1,
                     n_bytes == sum_len(nd.subrange(base_idx as int, end_idx as int)),
@@ -429,7 +429,7 @@ impl<DataInterfaceType: DeduplicationDataInterface> FileDeduper<DataInterfaceTyp
                 cur_idx <= chunks@.len(),
                 hs == hashes(chunks@), chunk_hashes@ == hs, chunks_ok(chunks@), deduped_blocks@.len() == chunks@.len(), answers_ok(deduped_blocks@, hs),
                 forall|i: int| 0 <= i < chunks@.len() ==> (#[trigger] chunks@[i]).data@.len() <= spec_MAX_XORB_BYTES(),
-                self.istruct(),
+                /*@C01,C02,C05,C15*/ self.istruct(),   // the lookup tables index the xorb under construction: what every dedup answer and segment rests on
                 /*@C01*/ self.den() == done0 + hs.subrange(0, cur_idx as int),
                 done0 == ch_hashes(old(self).chunk_hashes@),
                 self.chunk_hashes == old(self).chunk_hashes, self.deduplication_metrics == old(self).deduplication_metrics,
@@ -482,7 +482,9 @@ impl<DataInterfaceType: DeduplicationDataInterface> FileDeduper<DataInterfaceTyp
             let ghost fi_b = self.file_info@; let ghost nd_b = hashes(self.new_data@); let ghost ire_b = self.internally_referencing_entries@; let ghost lk_b = self.new_data_hash_lookup@;
             let ghost h = chunks@[ci].hash;
             proof {
-                assert(self.new_data_size + n_bytes <= spec_MAX_XORB_BYTES() && self.new_data@.len() + 1 <= spec_MAX_XORB_CHUNKS());
+                // the xorb under construction has room for this chunk (the cut test above ran): the statement of C15 at the point where
+                // a chunk is appended, not a proof convenience
+                /*@C15*/ assert(self.new_data_size + n_bytes <= spec_MAX_XORB_BYTES() && self.new_data@.len() + 1 <= spec_MAX_XORB_CHUNKS());
                 assert(self.den() == done0 + hs.subrange(0, ci));
             }
 //@ before `let last_entry = self.file_info.last_mut().unwrap();`
